@@ -190,3 +190,29 @@ def explore(fn_path, params, budget_s=300, seed=0, chunk=150, serial=False):
             total.errors.append(f'time budget exhausted with >= {len(queue)} unexplored prefixes')
             queue.clear()
     return total
+
+
+def _worker_whole(args):
+    fn_path, params, budget_s, seed = args
+    try:
+        a, rest = run_subtree(fn_path, params, [], 10 ** 9, time.time() + budget_s, seed)
+        if rest:
+            a.incomplete = True; a.errors.append(f'time budget exhausted with {len(rest)} unexplored prefixes')
+        return a
+    except Exception as e:
+        a = Agg(); a.errors.append('worker crashed: ' + ''.join(traceback.format_exception(type(e), e, e.__traceback__))[-2000:]); a.incomplete = True
+        return a
+
+
+def explore_many(items, seed=0):
+    """run many SMALL jobs concurrently, one whole job per worker task. items: list of (fn_path, params, budget_s). returns list of (Agg, wall_s)"""
+    p = pool()
+    t0 = time.time()
+    rs = [(p.apply_async(_worker_whole, ((fn, params, budget, seed),)), time.time()) for fn, params, budget in items]
+    out = []
+    for r, t in rs:
+        try: a = r.get(timeout=max(b for _, _, b in items) + 300)
+        except Exception as e:
+            a = Agg(); a.incomplete = True; a.errors.append('worker did not return: ' + repr(e))
+        out.append((a, time.time() - t0))
+    return out
